@@ -92,10 +92,11 @@ pub fn generate(thorough: bool, rng: &mut Rng, ops: &mut Vec<String>, stats: &mu
         let _ = i;
         ops.push(format!("c06 rabin {poly:x} {avg} {min} {max} {seed} {}", hex(&data)));
     }
-    // default parameters on multi-MiB inputs (thorough only: Lean-side cost ≈ 1 µs/byte)
-    if thorough {
-        for _ in 0..3 {
-            let len = rng.range(2 << 20, 12 << 20) as usize;
+    // default parameters on multi-MiB inputs (Lean-side cost ≈ 1 µs/byte: one case in quick, three in thorough)
+    {
+        let (n, lo, hi) = if thorough { (3, 2u64 << 20, 12u64 << 20) } else { (1, 1u64 << 20, 3u64 << 20) };
+        for _ in 0..n {
+            let len = rng.range(lo, hi) as usize;
             let data = rng.bytes(len);
             stats.hit("rabin.default-params");
             stats.add("bytes", len as u64);
